@@ -4,7 +4,10 @@ import os
 
 VERIF = os.path.dirname(os.path.dirname(os.path.abspath(__file__)))
 SEEDS = {
- "S-C01-1": ("C01", "", ""),
+ "S-C01-1": ("C01", "z_measurement_gate accepts a stabilizer row as the anticommuting generator only if its index is > n (was >= n): "
+             "the first stabilizer generator is never chosen", "the first stabilizer generator (initially paired with photon 0) is the "
+             "ONLY one with an X / Y on the measured qubit (H p0; MZ p0 - the same on photon 1 is fine): the measurement is "
+             "treated as deterministic, nothing collapses, the forced setting is ignored"),
  "S-C02-1": ("C02", "TimeReversedSolver._single_out_emitter returns early when there is one emitter, skipping the basis change "
              "and sign repair before a time-reversed measurement",
              "a disconnected target without isolated vertices whose components are contiguous in the emission order and that "
@@ -25,7 +28,11 @@ SEEDS = {
  "S-C07-1": ("C07", "deterministic branch of z_measurement_gate reports the XOR of the generators' sign bits instead of the "
              "sign of their product", ">= 3 qubits, a determined outcome whose +/-Z is a product of >= 2 generators with an "
              "intrinsic sign ((XX)(YY) = -ZZ): ~0.6 % of (random tableau, qubit) pairs at n = 3; reset then flips a correct qubit"),
- "S-C08-1": ("C08", "", ""),
+ "S-C08-1": ("C08", "state_to_graph computes the final Z corrections from the transformed tableau WITHOUT bringing it to canonical "
+             "form first (assumes products of graph generators are positive)",
+             ">= 4 qubits and a state for which a product of the graph's generators carries an intrinsic minus sign "
+             "(K1 K2 K3 on a triangle = -XXX): 128 of the 36,720 four-qubit states, none below; graph and H / P_dag "
+             "positions stay right, only the Z corrections are wrong (result orthogonal to |G>)"),
  "S-C09-1": ("C09", "_random_checker reuses its scratch vector across trials (hoisted out of the loop)",
              "mode='random', solution space of dimension >= 5, first random draw not a valid Clifford: answers yes with "
              "Cliffords that do not map |G1> to |G2>"),
@@ -53,7 +60,8 @@ SEEDS = {
              "differs from its library representative by a phase with negative real part: simplify_local_clifford raises"),
 }
 STRENGTHENED = {
- "S-C06-1": "grid extended by the endpoint p = 1", "S-C07-1": "measuring actions from ~1,100 sampled 3/4-qubit tableaux",
+ "S-C06-1": "grid extended by the endpoint p = 1", "S-C08-1": "sampled 4-6 qubit states (independent sampler, harness-built Clifford tableaux)",
+ "S-C07-1": "measuring actions from ~1,100 sampled 3/4-qubit tableaux",
  "S-C10-1": "targets with shuffled node insertion order", "S-C13-1": "systematic rewrite traces (group / add / group ...)",
  "S-C14-1": "wide circuits (11-13 registers, multi-digit names)", "S-C16-1": "random-walk explorers at depth 6 / 15 held to distinctness",
  "S-C18-1": "edit-then-measure histories (query, remove, query)",
@@ -84,6 +92,7 @@ def main():
                 m = re.search(r"clause (\S+) ?(\S*)", v["first"][0])
                 first = f"{k.split(':')[0]} `{m.group(1)}`" if m else k
                 break
+        what, needs = what.replace("|", "/"), needs.replace("|", "/")
         rows.append(f"| {sid} | {pid} | {what} | {needs} | {first or 'NOT CAUGHT'} | {STRENGTHENED.get(sid, '-')} |")
     print("| seed | breaks | change | needs | caught by (quick) | check strengthened |")
     print("|---|---|---|---|---|---|")
